@@ -111,9 +111,9 @@ FinishB == /\ out = <<>> /\ seq = <<>>
                  cfg \in { c \in Cfgs : c.write = "all" /\ c.uni_credit = 100 } :
                  LET tagged == [k \in 1..K |-> [i \in 1..Len(Scripts[picks[k]]) |-> WithSid(Scripts[picks[k]][i], Sid(role, k))]]
                  \* batched arrival only where the outcome cannot depend on the order in which simultaneously pending streams are
-                 \* examined: one of the streams is closed or reset before its type is known (scripts 13..16, never an error itself)
+                 \* examined: all streams but one are closed or reset before their type is known (scripts 13..16, never an error themselves)
                  IN \E inter \in Interleavings(tagged), batch \in BOOLEAN :
-                       /\ (batch => \E k \in 1..K : picks[k] \in 13..16)
+                       /\ (batch => Cardinality({k \in 1..K : picks[k] \notin 13..16}) <= 1)
                        /\ out' = ScnB(picks, inter, role, cfg, batch)
            /\ UNCHANGED seq
 SeqsC == UNION {[1..n -> LettersC] : n \in 1..MC}
